@@ -460,6 +460,12 @@ FRESH_CALLS = ("np.roll", "np.array", "np.zeros", "np.where", "np.abs", "np.roun
                "np.divide", "np.multiply", "copy.deepcopy", "copy.copy", "np.copy", "Food", "sum", "min", "max", "list")
 
 
+VIEW_CALLS = ("np.asarray", "np.asanyarray", "np.ascontiguousarray", "np.asfarray", "np.ravel", "np.reshape", "np.squeeze",
+              "np.transpose", "np.atleast_1d", "np.atleast_2d", "np.expand_dims", "np.flip", "np.flipud", "np.fliplr", "np.diagonal",
+              "np.broadcast_to", "np.swapaxes", "np.moveaxis", "np.nan_to_num_inplace", "numpy.asarray", "memoryview")
+VIEW_METHODS = ("view", "reshape", "ravel", "squeeze", "transpose", "swapaxes", "astype_view", "diagonal")
+
+
 def purity(food, rep):
     rule = "C11.PURE"
     for name, fn in food.items():
@@ -478,6 +484,18 @@ def purity(food, rep):
                 return True
             if isinstance(e, ast.Subscript):
                 return is_operand_storage(e.value)  # slices are views
+            if isinstance(e, ast.Call):
+                d = dotted(e.func) or ""
+                # calls that may hand back the SAME buffer (no copy when dtype/shape already fit)
+                if d in VIEW_CALLS and e.args and is_operand_storage(e.args[0]):
+                    return True
+                if d in ("np.array", "numpy.array") and e.args and is_operand_storage(e.args[0]) and any(
+                        k.arg == "copy" and isinstance(k.value, ast.Constant) and k.value.value is False for k in e.keywords):
+                    return True
+                if isinstance(e.func, ast.Attribute) and e.func.attr in VIEW_METHODS and is_operand_storage(e.func.value):
+                    return True
+            if isinstance(e, ast.Attribute) and e.attr in ("T", "flat", "real") and is_operand_storage(e.value):
+                return True
             return False
 
         while changed:
@@ -673,46 +691,32 @@ class BoolAbs:
         self.shape = shape  # True: operands are one-month series; False: single values
 
     def formula(self, block, env=None):
-        """returns a python callable val(assign)->bool built from the block (locals resolved)"""
-        env = env if env is not None else {}
-        for st in block:
-            if isinstance(st, ast.Assign) and len(st.targets) == 1 and isinstance(st.targets[0], ast.Name):
-                env[st.targets[0].id] = self.expr(st.value, env)
-            elif isinstance(st, ast.If):
-                cond = self.expr(st.test, env)
-                if _is_const(cond):
-                    r = self.formula(st.body if evalf(cond, {}) else st.orelse, env)
-                    if r is not None:
-                        return r
-                    continue
-                names = set()
-                for b in (st.body, st.orelse):
-                    for s in b:
-                        if isinstance(s, ast.Assign) and isinstance(s.targets[0], ast.Name):
-                            names.add(s.targets[0].id)
-                        elif isinstance(s, ast.Return):
-                            pass
-                        elif isinstance(s, (ast.Expr, ast.Assert)):
-                            pass
-                        else:
-                            raise AnalysisError(f"predicate {self.fn.name}: unsupported statement in branch: {norm_src(s)[:60]}")
-                e1 = dict(env)
-                e2 = dict(env)
-                r1 = self.formula(list(st.body), e1)
-                r2 = self.formula(list(st.orelse), e2) if st.orelse else None
-                if r1 is not None or r2 is not None:
-                    raise AnalysisError(f"predicate {self.fn.name}: return inside a flag branch")
-                for nme in names:
-                    a = self._last_assign(st.body, nme, env)
-                    b = self._last_assign(st.orelse, nme, env)
-                    env[nme] = ("ite", cond, a, b)
-            elif isinstance(st, ast.Return):
-                return self.expr(st.value, env)
-            elif isinstance(st, (ast.Expr, ast.Assert, ast.FunctionDef)):
-                continue
-            else:
-                raise AnalysisError(f"predicate {self.fn.name}: unsupported statement {type(st).__name__}")
-        return None
+        """formula of the value returned by executing `block` (paths are followed through both arms of every undecided test, so
+        early returns and branch-local assignments need no special form); None when a path falls off the end"""
+        env = dict(env) if env is not None else {}
+        stmts = list(block)
+        if not stmts:
+            return None
+        st, rest = stmts[0], stmts[1:]
+        if isinstance(st, ast.Assign) and len(st.targets) == 1 and isinstance(st.targets[0], ast.Name):
+            env[st.targets[0].id] = self.expr(st.value, env)
+            return self.formula(rest, env)
+        if isinstance(st, ast.If):
+            cond = self.expr(st.test, env)
+            if _is_const(cond):
+                return self.formula(list(st.body if evalf(cond, {}) else st.orelse) + rest, env)
+            r1 = self.formula(list(st.body) + rest, env)
+            r2 = self.formula(list(st.orelse) + rest, env)
+            if r1 is None or r2 is None:
+                return None
+            return ("ite", cond, r1, r2)
+        if isinstance(st, ast.Return):
+            if st.value is None:
+                raise AnalysisError(f"predicate {self.fn.name}: bare return")
+            return self.expr(st.value, env)
+        if isinstance(st, (ast.Expr, ast.Assert, ast.FunctionDef, ast.Pass)):
+            return self.formula(rest, env)
+        raise AnalysisError(f"predicate {self.fn.name}: unsupported statement {type(st).__name__}")
 
     def _last_assign(self, block, name, env):
         val = env.get(name, ("const", False))
